@@ -1,5 +1,5 @@
 (* C04 - Decoding untrusted CTAP2 bytes never panics, aborts or hangs. *)
-From Ctap Require Import Base Schema Wire Utf8 Typed Procs Inst Tables ProcTables CborItem WireP SkipP TypedP FramingP C11P Finite Utf8P StrsP SerP TotalP ObRequestSide ObOpTables ObRequestTotal FnShapes Shapes ObShapeRequest ObShapeStrings ObAllTotal Deps ObDeps.
+From Ctap Require Import Base Schema Wire Utf8 Typed Procs Inst Tables ProcTables CborItem WireP SkipP TypedP FramingP C11P Finite Utf8P StrsP SerP TotalP ObRequestSide ObOpTables ObRequestTotal FnShapes Shapes ObShapeRequest ObShapeStrings ObAllTotal Deps ObDeps ObShapeFilters.
 Local Open Scope string_scope.
 Local Open Scope Z_scope.
 
@@ -156,6 +156,10 @@ Proof. exact generated_shapes_strings. Qed.
 Theorem c04_modelled_dependencies_pinned : deps_hold lock_versions cargo_deps = true.
 Proof. exact generated_deps. Qed.
 
+(* further hand-modelled functions this property rests on *)
+Theorem c04_modelled_functions_unchanged_filters : shapes_hold fn_shapes shapes_filters = true.
+Proof. exact generated_shapes_filters. Qed.
+
 Eval vm_compute in "ASSUMPTIONS c04_deterministic". Print Assumptions c04_deterministic.
 Eval vm_compute in "ASSUMPTIONS c04_skipper_total". Print Assumptions c04_skipper_total.
 Eval vm_compute in "ASSUMPTIONS c04_readers_total". Print Assumptions c04_readers_total.
@@ -174,3 +178,4 @@ Eval vm_compute in "ASSUMPTIONS c04_modelled_functions_unchanged_strings". Print
 Eval vm_compute in "ASSUMPTIONS c04_generated_all_types_decodable". Print Assumptions c04_generated_all_types_decodable.
 Eval vm_compute in "ASSUMPTIONS c04_every_deserializable_type_total". Print Assumptions c04_every_deserializable_type_total.
 Eval vm_compute in "ASSUMPTIONS c04_modelled_dependencies_pinned". Print Assumptions c04_modelled_dependencies_pinned.
+Eval vm_compute in "ASSUMPTIONS c04_modelled_functions_unchanged_filters". Print Assumptions c04_modelled_functions_unchanged_filters.
